@@ -323,6 +323,12 @@ def check_c12(ctx):
     for i, d in enumerate(rnd):
         add(d["export"], "swagger", "yaml" if i % 2 else "json")
         add(d["export"], "openapi3", "json" if i % 2 else "yaml")
+    # beyond the listed properties: the Protocol Buffers exporter (`sysl export -o x.proto`), read generically
+    for i, d in enumerate(field):
+        if i % 2 == 0 and all(re.match(r"^[A-Za-z_][A-Za-z0-9_]*$", f["name"]) and f["name"] not in ("int", "type")
+                              for t in d["proto"]["types"] for f in t["fields"]) \
+                and all(t["fields"] for t in d["proto"]["types"] if t["kind"] == "object"):
+            scn.append({"id": len(scn) + 1, "doc": d["proto"], "dir": "export", "fmt": "proto", "enc": "", "seed": ctx.seed, "tmp": tmp})
     events, prints, results = run(ctx, "C12", scn)
     judge(ctx, "C12", scn, events, prints)
     states = sum(r.distinct for r in results)
